@@ -300,7 +300,7 @@ def certStep (s : CertSt) (toks : List String) : CertSt × String :=
           match (if s.agg then ag.sig else none), verifyAggQC E ag with
           | some _, .ok q =>
             (s, joinWith " || " (dedupStr ((highCandidates E ag q).map fun x =>
-              if b.qc.equals x && verifyQC E b.qc then "ok" else "reject")))
+              if (b.qc.view == x.view && b.qc.hash == x.hash) && verifyQC E b.qc then "ok" else "reject")))
           | _, _ => (s, vresStr (fun _ => "ok") (verifyAnyQC E s.agg b.qc (some ag)))
         | none => (s, "bad-op")
     | _, _ => (s, "bad-op")
